@@ -430,6 +430,31 @@ def _legacy(chk, repo):
         unparse(lp.body[0]) == f"{ps[1]}[{lp.target.id}][:, {ps[3]}] = {ps[2]}[{lp.target.id}]"
     chk.add("C09-R4", f"{ci.qual}._store_samples", ok and init_ok, site(repo, ss_src), "stores every block's value in column i",
             "not every block is stored, or sampling does not start from _get_initial_points()", ss_src)
+    # ... and the number of stored sweeps is the number of COLUMNS of the (dim x N) storage of a block (len() would be its dimension)
+    from .common import closed_outcomes, expected_text
+    for pname, store in (("_Ns", "samples"), ("_Nb", "samples_warmup")):
+        pr = ci.lookup_prop(pname)
+        if pr is None or pr.getter is None:
+            raise AnchorError(f"{ci.qual}.{pname}: property not found")
+        outs = closed_outcomes(repo, ci, pr.getter, level=2)          # private helpers inlined
+        cols = {expected_text(f"self.{store}[self.par_names[0]].shape[{k}]") for k in ("-1", "1")}
+        vals = {t for k_, t in outs if k_ == "return"}
+        ok = all(k_ == "return" for k_, _ in outs) and len(vals) == 2 and "0" in vals and bool(vals & cols)
+        chk.add("C09-R4", f"{ci.qual}.@{pname}", ok, site(repo, pr.getter), f"number of columns of self.{store}[first block], 0 before the first call",
+                f"`{pname}` is {sorted(vals)}: not the number of stored columns of the (dim x N) block storage - a continued run computes its column offsets from it, so "
+                f"new sweeps overwrite stored ones / leave zero columns", pr.getter)
+    # a second warm-up is refused once warm-up storage exists (a continuation with Nb = 0 re-creates that storage with zero columns, so a test on the
+    # number of stored warm-up sweeps forgets that warm-up was run): with the storage present and Nb != 0 every path raises
+    from .common import method_effects
+    aw = repo.method(ci, "_allocate_samples_warmup")[1]
+    nb = func_params(aw)[1]
+    val = {pn("hasattr(self,'samples_warmup')"): True, pn(f"{nb}!=0"): True, pn(f"{nb}==0"): False, pn(f"0<{nb}"): True, pn(f"{nb}>0"): True}
+    eff = method_effects(repo, ci, aw, valuation=val, level=2)
+    kinds = sorted({e["kind"] for e in eff})
+    chk.decide("C09-R4", f"{ci.qual}._allocate_samples_warmup/second-warm-up", kinds == ["raise"], bool(eff) and "unknown" not in kinds, site(repo, aw),
+               "warm-up storage present and Nb != 0 -> refused on every path",
+               f"with warm-up storage present and Nb != 0 the paths end as {kinds}: a further warm-up after a continued run is accepted; its transitions start from the last "
+               f"recorded state and are stored only in the warm-up arrays, so the returned chain silently skips them", aw)
     # continuation: the history of a further call is the stored sweeps FOLLOWED by the new columns (sweeps are stored at absolute indices Ns_old + i)
     from .common import match as _match, stmts as _stmts
     al = repo.method(ci, "_allocate_samples")[1]
